@@ -9,7 +9,7 @@ from ..core import Ctx, property_info, rule
 from ..events import check_function, is_event_generator, node_events
 from ..model import AnalysisError, FuncInfo, norm_text, walk_no_nested
 from ..q import (
-    A, MUTATORS, call_name_of, expand, leaves_at, raw_forms, attr_method_calls, is_call_to_self, is_self_attr, kwarg, names_in, root_name, self_attr_stores, stores,
+    A, MUTATORS, control_deps, flows, family, reach_table, value_texts, node_containing, call_name_of, expand, leaves_at, raw_forms, attr_method_calls, is_call_to_self, is_self_attr, kwarg, names_in, root_name, self_attr_stores, stores,
     unparse,
 )
 
@@ -281,6 +281,51 @@ def _ns_map_mutators(ctx: Ctx) -> dict[str, str]:
     return out
 
 
+def _declared_per_prefix_binding(ctx: Ctx) -> None:
+    """start_namespaces decides per PREFIX whether a binding must be declared on this element: whatever skips start_prefix_mapping(prefix, uri)
+    consults the parent's map under that prefix - knowing that the URI is in scope under some other prefix is not enough, the names of this
+    element use this prefix."""
+    sn = ctx.repo.method(EH, "start_namespaces")
+    g = build_cfg(sn.node)
+    for n in g.stmts():
+        for c in node_calls(n):
+            if not (is_call_to_self(c, "start_prefix_mapping") and c.args):
+                continue
+            pnames = {x.id for x in leaves_at(sn, n, c.args[0]) if isinstance(x, ast.Name)}
+            if not pnames:
+                ctx.abstain("prefix argument of start_prefix_mapping", at=sn)
+                continue
+            deps = {t.id: t for _, _, t in control_deps(sn, n)}
+            if not deps:
+                ctx.ob("start_namespaces: start_prefix_mapping(prefix, uri) is unconditional or keyed by the prefix", True, at=sn, node=c, construct="declaration keyed by prefix")
+                continue
+
+            def keyed(t) -> bool:
+                # the test itself, the values of the locals it reads, and the tests those values were chosen under
+                exprs: list[ast.AST] = [t.ast]
+                for nm in [x for x in ast.walk(t.ast) if isinstance(x, ast.Name) and isinstance(x.ctx, ast.Load)]:
+                    for leaf, chain in flows(sn, t, nm):
+                        exprs.append(leaf)
+                        for dn in chain:
+                            exprs += [tt.ast for _, _, tt in control_deps(sn, dn)]
+                return any(_keyed_expr(e) for e in exprs)
+
+            def _keyed_expr(e: ast.AST) -> bool:
+                for x in ast.walk(e):
+                    if isinstance(x, ast.Call) and isinstance(x.func, ast.Attribute) and x.func.attr in ("get", "__contains__") and x.args and isinstance(x.args[0], ast.Name) and x.args[0].id in pnames:
+                        return True
+                    if isinstance(x, ast.Subscript) and isinstance(x.slice, ast.Name) and x.slice.id in pnames:
+                        return True
+                    if isinstance(x, ast.Compare) and len(x.ops) == 1 and isinstance(x.ops[0], (ast.In, ast.NotIn)) and (
+                            (isinstance(x.left, ast.Name) and x.left.id in pnames) or (isinstance(x.left, ast.Tuple) and x.left.elts and isinstance(x.left.elts[0], ast.Name) and x.left.elts[0].id in pnames)):
+                        return True
+                return False
+
+            ctx.ob("start_namespaces: a binding is skipped only after looking the PREFIX up in the parent's map", any(keyed(t) for t in deps.values()), at=sn, node=c, construct="declaration keyed by prefix",
+                   msg="the declaration is skipped when the URI is already in scope under another prefix: a qualified attribute in the default namespace gets a generated prefix that is never declared "
+                       "(the native writer then writes it unprefixed; lxml declares it itself - the two writers disagree)")
+
+
 @rule("C03.R3")
 def declare_before_use(ctx: Ctx) -> None:
     """Every call that may bind a prefix dominates start_namespaces(), which dominates start_element()."""
@@ -290,6 +335,7 @@ def declare_before_use(ctx: Ctx) -> None:
                  f"{MIXINS}:EventHandler.reset_default_namespace", f"{NSMOD}:generate_prefix"):
         if need not in binders:
             raise AnalysisError(f"C03.R3: expected prefix binder not discovered: {need}")
+    _declared_per_prefix_binding(ctx)
     flush = ctx.repo.method(EH, "flush_start")
     g = build_cfg(flush.node)
     sn = [n for n in g.stmts() if any(is_call_to_self(c, "start_namespaces") for c in node_calls(n))]
@@ -332,7 +378,8 @@ def declare_before_use(ctx: Ctx) -> None:
     st_ok = False
     for st, tgt, val in stores(aa.node):
         if isinstance(tgt, ast.Subscript) and is_self_attr(tgt.value, "attrs"):
-            st_ok = isinstance(val, ast.Call) and is_call_to_self(val, "encode_data")
+            lv = leaves_at(aa, st, val) if val is not None else []
+            st_ok = bool(lv) and all(isinstance(v, ast.Call) and is_call_to_self(v, "encode_data") for v in lv)
             ctx.ob("add_attribute: stored value is encode_data(value)", st_ok, at=aa, node=st, msg="attribute value stored without prefix-aware encoding")
     if not st_ok:
         ctx.ob("add_attribute: stores into self.attrs", False, at=aa, construct="attrs store", msg="no store self.attrs[...] = self.encode_data(...) found")
@@ -530,7 +577,7 @@ def user_prefix_gate(ctx: Ctx) -> None:
     cp = ctx.repo.func(f"{NSMOD}:clean_prefixes")
     g = build_cfg(cp.node)
     fresh = {t.id for st, t, v in stores(cp.node) if isinstance(t, ast.Name) and isinstance(v, (ast.Dict, ast.DictComp))}
-    sts = [(st, tgt) for st, tgt, v in stores(cp.node) if isinstance(tgt, ast.Subscript) and isinstance(tgt.value, ast.Name) and tgt.value.id in fresh]
+    sts = [(st, tgt) for st, tgt, v in stores(cp.node) if isinstance(tgt, ast.Subscript) and isinstance(tgt.value, ast.Name) and tgt.value.id in fresh and not isinstance(st, ast.Delete)]
     if not sts:
         ctx.ob("clean_prefixes copies entries into a fresh dict", False, at=cp, construct="result store", msg="no store into the result dict found")
         return
@@ -673,3 +720,32 @@ def default_namespace_never_qualifies_attributes_or_values(ctx: Ctx) -> None:
     unprefixed = any(isinstance(r.ast.value, ast.Name) and any("load_prefix" in t and not pol for t, pol, _ in control_deps(qs, r)) for r in gq.returns())
     ctx.ob("QName values are not written unprefixed through a default namespace that the writer may reset on the same element", not (unprefixed and resets), at=qs, construct="qname default prefix",
            msg="QNameConverter.serialize returns the bare local name when the namespace is bound as default; reset_default_namespace then emits xmlns=\"\" on an unqualified element and the value denotes another QName")
+
+
+@rule("C03.R13")
+def per_field_metadata_is_independent(ctx: Ctx) -> None:
+    """What the metadata builders pass on for one field (namespace, type hints, globals ...) does not depend on the fields visited before it:
+    no local that is conditionally overwritten inside the per-field loop reaches the builder call of a later iteration."""
+    from ..q import loop_carried_defs, _def_nodes
+
+    n = 0
+    for q in ("XmlMetaBuilder.build_vars", "XmlVarBuilder.build_choices"):
+        for fi in family(ctx.repo, ctx.repo.func(f"xsdata.formats.dataclass.models.builders:{q}")):
+            g = build_cfg(fi.node)
+            defs = _def_nodes(g)
+            for node in g.stmts():
+                for c in node_calls(node):
+                    if call_name_of(c) not in ("build", "XmlVar"):
+                        continue
+                    for a in [*c.args, *[k.value for k in c.keywords]]:
+                        for x in ast.walk(a):
+                            if not (isinstance(x, ast.Name) and isinstance(x.ctx, ast.Load)):
+                                continue
+                            carried = loop_carried_defs(g, node.id, x.id)
+                            # a counter / accumulator (x = x + 1) is meant to be carried; a value that is only overwritten for some items is not
+                            carried = {d for d in carried if defs[x.id].get(d) is None or not any(isinstance(y, ast.Name) and y.id == x.id for y in ast.walk(defs[x.id][d]))}
+                            n += 1
+                            ctx.ob(f"{q}: `{x.id}` passed to {call_name_of(c)}() is set afresh for every item", not carried, at=fi, node=c, construct=f"per-item {x.id}",
+                                   msg=f"`{x.id}` keeps the value assigned for an earlier item (definition at line {sorted(g.nodes[d].lineno for d in carried)}): "
+                                       "e.g. the namespace of a base class with its own Meta leaks into the fields declared after it")
+    ctx.floor("arguments of per-field builder calls", n, 8)
